@@ -1,2 +1,3 @@
 from libc.stdint cimport int64_t
 cdef datetime_from_timestamp(double timestamp)
+cdef datetime_from_ms_timestamp(int64_t timestamp)
